@@ -4,6 +4,7 @@
   One request per line on stdin, one answer per line on stdout.
 -/
 import Bcder.Model.Parse
+import Bcder.Model.Generic
 import Bcder.Spec.X690
 import Bcder.Spec.Values
 import Bcder.Spec.Tlv
@@ -30,6 +31,12 @@ def onSlice (p : Prog α) (data : Bytes) : Res (α × Nat) :=
   match runG p { data := data, limit := none } with
   | .ok (a, s) => .ok (a, s.data.length)
   | .error e => .error e
+
+def identHex (i : Spec.Ident) : String := toHex (Spec.identOctets i.cls i.constructed i.num)
+
+partial def treeTrace : Spec.Tree → List String
+  | .prim id c => [s!"v{identHex id}={toHex c}"]
+  | .cons id _ kids => [s!"v{identHex id}("] ++ kids.flatMap treeTrace ++ [")"]
 
 def handleModel (toks : List String) : String :=
   match toks with
@@ -81,10 +88,20 @@ def handleModel (toks : List String) : String :=
   | "run" :: mode :: src :: hex :: script =>
     match Mode.ofString mode, ofHex hex, parseScript script with
     | some m, some bs, some sc =>
-      let showG : String :=
+      let showG0 : String :=
         match runScript m bs sc with
         | .ok (tr, rest) => s!"ok {" ".intercalate tr.toList} | rest={rest}"
         | .error e => e.toStr
+      -- a purely generic read is also answered by the tree reader the C02 theorems are about
+      let showG : String :=
+        match sc with
+        | [.all] =>
+          let viaTree : String :=
+            match runG (decodeTop m (readAll (bs.length + 4))) { data := bs, limit := none } with
+            | .ok (ts, g) => s!"ok {" ".intercalate (ts.flatMap treeTrace)} | rest={g.data.length}"
+            | .error e => e.toStr
+          if viaTree == showG0 then showG0 else s!"MODEL-INCONSISTENT tree-reader={viaTree} trace-reader={showG0}"
+        | _ => showG0
       -- streaming source kinds are answered by the stream layer when the script is capture-free
       let polOf (s : String) : Option Policy :=
         if s == "stingy" then some (fun _ len avail => min len avail)
@@ -395,10 +412,6 @@ def handleSpecLeaf (toks : List String) : String :=
 
 def specMode : Mode → Spec.M | .ber => .ber | .cer => .cer | .der => .der
 
-partial def treeTrace : Spec.Tree → List String
-  | .prim id c => [s!"v{toHex id}={toHex c}"]
-  | .cons id _ kids => [s!"v{toHex id}("] ++ kids.flatMap treeTrace ++ [")"]
-
 /-- the first value of the input (top level: whatever follows is not looked at) -/
 def specSingle (m : Mode) (enc : Bytes) : Option Spec.Tree :=
   match Spec.parseValue (specMode m) (enc.length + 2) enc with
@@ -411,7 +424,7 @@ def specString (m : Mode) (tagNum : UInt8) (enc : Bytes) : Option (Spec.Tree × 
   | none => none
   | some t =>
     if !Spec.osAccept (specMode m) t then none
-    else match Spec.osContent [tagNum] [tagNum ||| 0x20] (enc.length + 2) t with
+    else match Spec.osContent tagNum.toNat (enc.length + 2) t with
       | some c => some (t, c)
       | none => none
 
